@@ -12,9 +12,72 @@ import (
 	"fmt"
 	"math/rand"
 	"regexp"
+	"runtime"
 	"sort"
 	"strings"
 )
+
+// ---- panic capture (shared by the three C19 drivers) ----------------------------------------------------
+
+// C19Panic describes a recovered panic.
+type C19Panic struct {
+	Val   string
+	Frame string // innermost repository frame that is not a driver / kit frame (function name, no line number)
+	Kind  string // nilptr | divzero | index | regexp | chan-size | nilmap | other
+}
+
+// Sig is the canonical signature of the panic in the given step.
+func (p *C19Panic) Sig(step string) string { return "panic:" + step + ":" + p.Frame + ":" + p.Kind }
+
+func c19PanicKind(r interface{}) string {
+	s := fmt.Sprint(r)
+	switch {
+	case strings.Contains(s, "nil pointer dereference"):
+		return "nilptr"
+	case strings.Contains(s, "integer divide by zero"):
+		return "divzero"
+	case strings.Contains(s, "index out of range"), strings.Contains(s, "slice bounds out of range"):
+		return "index"
+	case strings.HasPrefix(s, "regexp: Compile("):
+		return "regexp"
+	case strings.Contains(s, "makechan: size out of range"):
+		return "chan-size"
+	case strings.Contains(s, "nil map"):
+		return "nilmap"
+	}
+	return "other"
+}
+
+const c19RepoPrefix = "github.com/refraction-networking/conjure/"
+
+func c19PanicFrame() string {
+	pcs := make([]uintptr, 64)
+	n := runtime.Callers(2, pcs)
+	frames := runtime.CallersFrames(pcs[:n])
+	for {
+		f, more := frames.Next()
+		if strings.HasPrefix(f.Function, c19RepoPrefix) && !strings.Contains(f.Function, "verif") && !strings.Contains(f.Function, "Verif") {
+			return strings.TrimPrefix(f.Function, c19RepoPrefix)
+		}
+		if !more {
+			return "?"
+		}
+	}
+}
+
+// C19Try runs f and reports a panic instead of propagating it.
+func C19Try(f func()) (p *C19Panic) {
+	defer func() {
+		if r := recover(); r != nil {
+			p = &C19Panic{Val: fmt.Sprint(r), Frame: c19PanicFrame(), Kind: c19PanicKind(r)}
+			if len(p.Val) > 300 {
+				p.Val = p.Val[:300]
+			}
+		}
+	}()
+	f()
+	return nil
+}
 
 // C19Config is one generated configuration file.
 type C19Config struct {
@@ -39,6 +102,17 @@ type C19Key struct {
 	Name   string
 	States []C19State
 	Base   int // index of the state used by the base configuration
+}
+
+// c19SetBase selects the base state by label.
+func c19SetBase(k C19Key, label string) C19Key {
+	for i, s := range k.States {
+		if s.Label == label {
+			k.Base = i
+			return k
+		}
+	}
+	panic("c19gen: key " + k.Name + " has no state " + label)
 }
 
 // C19Q renders a TOML basic string.
@@ -162,95 +236,103 @@ var C19RegKeys = []string{
 // C19PolicyKeys are the list-valued address-policy keys.
 var C19PolicyKeys = []string{"covert_blocklist_subnets", "covert_allowlist_subnets", "covert_blocklist_domains", "phantom_blocklist"}
 
-func c19ScalarKey(name string, base int, states ...C19State) C19Key {
-	return C19Key{Name: name, States: append([]C19State{{Label: "unset", Kind: "unset"}}, states...), Base: base}
+func c19ScalarKey(name string, base string, states ...C19State) C19Key {
+	return c19SetBase(C19Key{Name: name, States: append([]C19State{{Label: "unset", Kind: "unset"}}, states...)}, base)
 }
-func v(label, lit string) C19State    { return C19State{Label: "valid:" + label, Lit: lit, Kind: "valid"} }
-func z(lit string) C19State           { return C19State{Label: "zero", Lit: lit, Kind: "zero"} }
-func bad(label, lit string) C19State  { return C19State{Label: "bad:" + label, Lit: lit, Kind: "bad"} }
-func ent(label, lit string) C19State  { return C19State{Label: "entry:" + label, Lit: lit, Kind: "entry"} }
-func ptyp(label, lit string) C19State { return C19State{Label: "ptype:" + label, Lit: lit, Kind: "ptype"} }
-
-func c19DurationKey(name string, base int) C19Key {
-	return c19ScalarKey(name, base,
-		v("2.0h", `"2.0h"`), v("5m", `"5m"`), v("90s", `"90s"`), v("1ns", `"1ns"`), v("0s", `"0s"`), v("-5m", `"-5m"`),
-		z(`""`), bad("no-unit", `"5"`), bad("word", `"abc"`), bad("type-int", `7`))
+func c19V(label, lit string) C19State {
+	return C19State{Label: "valid:" + label, Lit: lit, Kind: "valid"}
 }
-func c19CapKey(name string, base int) C19Key {
-	return c19ScalarKey(name, base,
-		v("1", `1`), v("3", `3`), v("100000", `100000`), v("-1", `-1`), z(`0`), bad("type-string", `"10"`), bad("type-float", `1.5`))
+func c19Z(lit string) C19State { return C19State{Label: "zero", Lit: lit, Kind: "zero"} }
+func c19Bad(label, lit string) C19State {
+	return C19State{Label: "bad:" + label, Lit: lit, Kind: "bad"}
 }
-func c19BoolKey(name string, base int) C19Key {
-	return c19ScalarKey(name, base, v("true", `true`), z(`false`), bad("type-string", `"yes"`))
+func c19Ent(label, lit string) C19State {
+	return C19State{Label: "entry:" + label, Lit: lit, Kind: "entry"}
+}
+func c19PT(label, lit string) C19State {
+	return C19State{Label: "ptype:" + label, Lit: lit, Kind: "ptype"}
 }
 
-func c19NetListKey(name string, good []string, base int, rng *rand.Rand) C19Key {
-	k := C19Key{Name: name, Base: base}
-	k.States = append(k.States, C19State{Label: "unset", Kind: "unset"}, z(`[]`))
+func c19DurationKey(name string, base string) C19Key {
+	return c19ScalarKey(name, base,
+		c19V("2.0h", `"2.0h"`), c19V("5m", `"5m"`), c19V("90s", `"90s"`), c19V("1ns", `"1ns"`), c19V("0s", `"0s"`), c19V("-5m", `"-5m"`),
+		c19Z(`""`), c19Bad("no-unit", `"5"`), c19Bad("word", `"abc"`), c19Bad("type-int", `7`))
+}
+func c19CapKey(name string, base string) C19Key {
+	return c19ScalarKey(name, base,
+		c19V("1", `1`), c19V("3", `3`), c19V("100000", `100000`), c19V("-1", `-1`), c19Z(`0`), c19Bad("type-string", `"10"`), c19Bad("type-float", `1.5`))
+}
+func c19BoolKey(name string, base string) C19Key {
+	return c19ScalarKey(name, base, c19V("true", `true`), c19Z(`false`), c19Bad("type-string", `"yes"`))
+}
+
+func c19NetListKey(name string, good []string, base string, rng *rand.Rand) C19Key {
+	k := C19Key{Name: name}
+	k.States = append(k.States, C19State{Label: "unset", Kind: "unset"}, c19Z(`[]`))
 	// a few fixed valid lists and (when rng != nil) one drawn list
-	k.States = append(k.States, v("one", c19List(good[0])), v("three", c19List(good[1], good[2], good[len(good)-1])), v("all", c19List(good...)))
+	k.States = append(k.States, c19V("one", c19List(good[0])), c19V("three", c19List(good[1], good[2], good[len(good)-1])), c19V("all", c19List(good...)))
 	if rng != nil {
 		n := 1 + rng.Intn(4)
 		var items []string
 		for i := 0; i < n; i++ {
 			items = append(items, good[rng.Intn(len(good))])
 		}
-		k.States = append(k.States, v("drawn", c19List(items...)))
+		k.States = append(k.States, c19V("drawn", c19List(items...)))
 	}
 	for _, be := range C19BadEntries {
 		// the offending entry sits between well-formed ones
-		k.States = append(k.States, ent(be.Class+":"+strings.TrimSpace(be.S), c19List(good[1], be.S, good[2])))
+		k.States = append(k.States, c19Ent(be.Class+":"+strings.TrimSpace(be.S), c19List(good[1], be.S, good[2])))
 	}
-	k.States = append(k.States, ent("garbage-only", c19List("not-a-subnet")), ent("ws-only", c19List(good[1]+" ")))
-	k.States = append(k.States, ptyp("int", `5`), ptyp("string", C19Q(good[1])), ptyp("int-array", `[1, 2]`))
-	return k
+	k.States = append(k.States, c19Ent("garbage-only", c19List("not-a-subnet")), c19Ent("ws-only", c19List(good[1]+" ")))
+	k.States = append(k.States, c19PT("int", `5`), c19PT("string", C19Q(good[1])), c19PT("int-array", `[1, 2]`))
+	return c19SetBase(k, base)
 }
 
-func c19DomainKey(base int) C19Key {
-	k := C19Key{Name: "covert_blocklist_domains", Base: base}
-	k.States = append(k.States, C19State{Label: "unset", Kind: "unset"}, z(`[]`))
+func c19DomainKey(base string) C19Key {
+	k := C19Key{Name: "covert_blocklist_domains"}
+	k.States = append(k.States, C19State{Label: "unset", Kind: "unset"}, c19Z(`[]`))
 	var all []string
 	for _, d := range C19GoodDomains {
 		all = append(all, d.Pattern)
 	}
-	k.States = append(k.States, v("localhost", c19List("localhost")), v("three", c19List(all[1], all[2], all[4])), v("all", c19List(all...)))
+	k.States = append(k.States, c19V("localhost", c19List("localhost")), c19V("three", c19List(all[1], all[2], all[4])), c19V("all", c19List(all...)))
 	for _, b := range C19BadDomains {
 		k.States = append(k.States, C19State{Label: "regex:" + b, Lit: c19List(all[1], b), Kind: "regex"})
 	}
-	k.States = append(k.States, ptyp("string", `"localhost"`), ptyp("int-array", `[1, 2]`))
-	return k
+	k.States = append(k.States, c19PT("string", `"localhost"`), c19PT("int-array", `[1, 2]`))
+	return c19SetBase(k, base)
 }
 
 // C19Keys returns every optional key with its states.  garbageDB is the path of an existing file
 // that is not a MaxMind database.  rng may be nil (then only the fixed states are produced).
 func C19Keys(garbageDB string, rng *rand.Rand) []C19Key {
 	keys := []C19Key{
-		c19ScalarKey("log_level", 1, v("error", `"error"`), v("info", `"info"`), v("debug", `"debug"`), v("trace", `"trace"`), v("warn", `"warn"`),
-			v("INFO", `"INFO"`), z(`""`), bad("word", `"bogus"`), bad("type-int", `5`)),
-		c19ScalarKey("privkey_path", 0, z(`""`), v("missing", `"/nonexistent/privkey"`)),
-		c19ScalarKey("zmq_privkey_path", 0, z(`""`), v("missing", `"/nonexistent/zmqkey"`)),
-		c19ScalarKey("supplemental_prefix_path", 0, z(`""`), v("missing", `"/nonexistent/prefixes.toml"`)),
-		c19BoolKey("disable_default_prefixes", 0),
-		c19DurationKey("cache_expiration_time", 1),
-		c19CapKey("cache_capacity", 0),
-		c19DurationKey("cache_expiration_nonlive", 2),
-		c19CapKey("cache_capacity_nonlive", 0),
-		c19BoolKey("enable_v4", 1),
-		c19BoolKey("enable_v6", 2),
-		c19ScalarKey("ingest_worker_count", 4, v("1", `1`), v("9", `9`), v("10", `10`), v("100", `100`), v("2000", `2000`), v("-3", `-3`), v("-100", `-100`), z(`0`), bad("type-string", `"many"`)),
-		c19BoolKey("enable_share_over_api", 0),
-		c19ScalarKey("preshare_endpoint", 0, z(`""`), v("url", `"http://127.0.0.1:1/register"`)),
-		c19NetListKey("covert_blocklist_subnets", C19GoodCovertNets, 4, rng),
-		c19BoolKey("covert_blocklist_public_addrs", 2),
-		c19NetListKey("covert_allowlist_subnets", C19GoodCovertNets, 1, rng),
-		c19DomainKey(2),
-		c19NetListKey("phantom_blocklist", C19GoodPhantomNets, 1, rng),
-		c19ScalarKey("detector_filter_list", 1, v("shipped", `["127.0.0.1", "::1"]`), z(`[]`)),
-		c19ScalarKey("geoip_cc_db_path", 1, z(`""`), bad("missing", `"/nonexistent/GeoLite2-Country.mmdb"`), bad("not-a-db", C19Q(garbageDB))),
-		c19ScalarKey("geoip_asn_db_path", 1, z(`""`), bad("missing", `"/nonexistent/GeoLite2-ASN.mmdb"`), bad("not-a-db", C19Q(garbageDB))),
-		c19ScalarKey("socket_name", 1, v("zmq-proxy", `"zmq-proxy"`), z(`""`)),
-		c19ScalarKey("heartbeat_interval", 1, v("30000", `30000`), v("-1", `-1`), z(`0`), bad("type-string", `"x"`)),
-		c19ScalarKey("heartbeat_timeout", 1, v("1000", `1000`), v("-1", `-1`), z(`0`), bad("type-string", `"x"`)),
+		c19ScalarKey("log_level", "valid:error", c19V("error", `"error"`), c19V("info", `"info"`), c19V("debug", `"debug"`), c19V("trace", `"trace"`), c19V("warn", `"warn"`),
+			c19V("INFO", `"INFO"`), c19Z(`""`), c19Bad("word", `"bogus"`), c19Bad("type-int", `5`)),
+		c19ScalarKey("privkey_path", "zero", c19Z(`""`), c19V("missing", `"/nonexistent/privkey"`)),
+		c19ScalarKey("zmq_privkey_path", "zero", c19Z(`""`), c19V("missing", `"/nonexistent/zmqkey"`)),
+		c19ScalarKey("supplemental_prefix_path", "zero", c19Z(`""`), c19V("missing", `"/nonexistent/prefixes.toml"`)),
+		c19BoolKey("disable_default_prefixes", "zero"),
+		c19DurationKey("cache_expiration_time", "valid:2.0h"),
+		c19CapKey("cache_capacity", "zero"),
+		c19DurationKey("cache_expiration_nonlive", "valid:5m"),
+		c19CapKey("cache_capacity_nonlive", "zero"),
+		c19BoolKey("enable_v4", "valid:true"),
+		c19BoolKey("enable_v6", "zero"),
+		c19ScalarKey("ingest_worker_count", "valid:100", c19V("1", `1`), c19V("9", `9`), c19V("10", `10`), c19V("100", `100`), c19V("2000", `2000`), c19V("-3", `-3`), c19V("-100", `-100`), c19Z(`0`), c19Bad("type-string", `"many"`)),
+		c19BoolKey("enable_share_over_api", "zero"),
+		c19ScalarKey("preshare_endpoint", "zero", c19Z(`""`), c19V("url", `"http://127.0.0.1:1/register"`)),
+		c19NetListKey("covert_blocklist_subnets", C19GoodCovertNets, "valid:all", rng),
+		c19BoolKey("covert_blocklist_public_addrs", "zero"),
+		c19NetListKey("covert_allowlist_subnets", C19GoodCovertNets, "zero", rng),
+		c19DomainKey("valid:localhost"),
+		c19NetListKey("phantom_blocklist", C19GoodPhantomNets, "valid:one", rng),
+		c19ScalarKey("detector_filter_list", "valid:shipped", c19V("shipped", `["127.0.0.1", "::1"]`), c19Z(`[]`)),
+		c19ScalarKey("geoip_cc_db_path", "zero", c19Z(`""`), c19Bad("missing", `"/nonexistent/GeoLite2-Country.mmdb"`), c19Bad("not-a-db", C19Q(garbageDB))),
+		c19ScalarKey("geoip_asn_db_path", "zero", c19Z(`""`), c19Bad("missing", `"/nonexistent/GeoLite2-ASN.mmdb"`), c19Bad("not-a-db", C19Q(garbageDB))),
+		c19ScalarKey("socket_name", "valid:zmq-proxy", c19V("zmq-proxy", `"zmq-proxy"`), c19Z(`""`)),
+		c19ScalarKey("heartbeat_interval", "valid:30000", c19V("30000", `30000`), c19V("-1", `-1`), c19Z(`0`), c19Bad("type-string", `"x"`)),
+		c19ScalarKey("heartbeat_timeout", "valid:1000", c19V("1000", `1000`), c19V("-1", `-1`), c19Z(`0`), c19Bad("type-string", `"x"`)),
 	}
 	// connect_sockets is rendered as tables after the plain keys; Lit holds the table text.
 	keys = append(keys, C19Key{Name: "connect_sockets", Base: 1, States: []C19State{
@@ -361,20 +443,18 @@ func c19Pick(k C19Key, rng *rand.Rand, pBad float64) int {
 			kind = "zero"
 		case r < 0.84:
 			kind = "valid"
-		case r < 0.96:
-			if len(byKind["entry"]) > 0 {
-				kind = "entry"
-			} else if r < 0.90 {
-				kind = "regex"
-			} else {
+		case r < 0.95:
+			kind = "entry" // lists of subnets
+			if len(byKind["entry"]) == 0 {
 				kind = "valid"
+				if r < 0.90 {
+					kind = "regex" // the domain list: a pattern that does not compile
+				}
 			}
+		case r < 0.975:
+			kind = "ptype"
 		default:
-			if r < 0.98 {
-				kind = "ptype"
-			} else {
-				kind = "valid"
-			}
+			kind = "valid"
 		}
 	default:
 		switch {
@@ -397,8 +477,6 @@ func c19Pick(k C19Key, rng *rand.Rand, pBad float64) int {
 	}
 	return c[rng.Intn(len(c))]
 }
-
-var c19LineRe = regexp.MustCompile(`(?m)^([a-z_0-9]+) = .*$`)
 
 // c19Perturb replaces (or removes) the value of one key of the shipped file.
 func c19Perturb(shipped string, keys []C19Key, rng *rand.Rand) (string, string, string) {
@@ -638,13 +716,24 @@ func C19GenReload(rng *rand.Rand, shipped, garbageDB string) C19Reload {
 		r.ConfAct = "dir"
 	}
 	files := C19SubnetFiles()
+	var good, bad []int
+	for i, f := range files {
+		if f.Loadable {
+			good = append(good, i)
+		} else {
+			bad = append(bad, i)
+		}
+	}
 	switch x := rng.Float64(); {
-	case x < 0.30:
+	case x < 0.28:
 		r.SubAct = "same"
-	case x < 0.85:
+	case x < 0.70:
 		r.SubAct = "switch"
-		r.SubIdx = rng.Intn(len(files))
-	case x < 0.93:
+		r.SubIdx = good[rng.Intn(len(good))]
+	case x < 0.87:
+		r.SubAct = "switch"
+		r.SubIdx = bad[rng.Intn(len(bad))]
+	case x < 0.94:
 		r.SubAct = "missing"
 	default:
 		r.SubAct = "dir"
